@@ -176,7 +176,7 @@ func runC19(c *Ctx) {
 	}
 	for _, fn := range c.P.AllLibFuncs() {
 		if len(callsTo(fn, rhr)) > 0 {
-			guardedBy(c, "C19.R3", fn, hrm, 1, "hostname")
+			guardedBy(c, "C19.R3", fn, hrm, stringParamIndex(fn), "hostname")
 		}
 	}
 
